@@ -7,31 +7,9 @@ by a function of the inputs, the literals and the threshold, and nothing is buil
 refuses the reservation.  Runtime aborts (failed infallible allocations, stack overflow) and panics
 elsewhere in the evaluator are not expressible here; they are monitored by the harness.
 -/
-import SuccinctlyVerif.Model.JqGuards
+import SuccinctlyVerif.Proof.JqGuards
 namespace SV.Props.C30
 open SV.JqGuards SV.Gen
-
-theorem rangeUp_length (to step : Int) : ∀ fuel i acc, (rangeUp to step fuel i acc).length ≤ acc.length + fuel := by
-  intro fuel
-  induction fuel with
-  | zero => intro i acc; simp [rangeUp]
-  | succ f ih =>
-    intro i acc
-    unfold rangeUp
-    split
-    · have := ih (i + step) (i :: acc); simp at this; omega
-    · omega
-
-theorem rangeDown_length (to step : Int) : ∀ fuel i acc, (rangeDown to step fuel i acc).length ≤ acc.length + fuel := by
-  intro fuel
-  induction fuel with
-  | zero => intro i acc; simp [rangeDown]
-  | succ f ih =>
-    intro i acc
-    unfold rangeDown
-    split
-    · have := ih (i + step) (i :: acc); simp at this; omega
-    · omega
 
 /-- `range(from; to; step)` never accumulates more than the cap, whatever the operands (including a
 step that never reaches `to`, `to = 2^63 - 1`, or a zero step). -/
@@ -104,18 +82,6 @@ theorem pad_bounded (arrLen index : Nat) (alloc : Nat → Bool) (h : index ≥ a
         intro hh; injection hh with hh; subst hh; exact ⟨rfl, ha⟩
       · intro hh; cases hh
     · intro hh; cases hh
-
-theorem resolve_spec (idx : Int) (len : Nat) :
-    (∃ m, resolveSetpathIndex idx len = .error m) ∨
-    (∃ r, resolveSetpathIndex idx len = .ok r ∧ (r : Int) = (if idx < 0 then (len : Int) + idx else idx)) := by
-  unfold resolveSetpathIndex
-  simp only []
-  by_cases h1 : (if idx < 0 then (len : Int) + idx else idx) < 0
-  · left; rw [if_pos h1]; exact ⟨_, rfl⟩
-  · rw [if_neg h1]
-    by_cases h2 : (if idx < 0 then (len : Int) + idx else idx).toNat < USIZE
-    · right; rw [if_pos h2]; refine ⟨_, rfl, ?_⟩; omega
-    · left; rw [if_neg h2]; exact ⟨_, rfl⟩
 
 /-- `setpath([idx]; v)` / `.[idx] = v` on an array of `arrLen` elements: never panics, and the
 resulting length is either unchanged or `resolved index + 1`, the latter only with the allocator's
